@@ -583,6 +583,10 @@ def gen_prim_value(rng, kind, facets, alphabet='xml'):
             if b is not None:
                 cands += [b, b + 1, b - 1]
         cands += [0, 1, -1, 2 ** 31 - 1, 2 ** 31, -2 ** 31, 2 ** 63 - 1, 2 ** 63, -2 ** 63, 2 ** 64, 2 ** 70, -2 ** 70, 10 ** 30]
+        # both sides of every width at which a binary wire format changes representation, both signs
+        k = rng.choice((5, 7, 8, 15, 16, 31, 32, 53, 63, 64, 65))
+        cands += [s * (2 ** k + d) for s in (1, -1) for d in (-1, 0, 1)]
+        cands.append(rng.choice((1, -1)) * rng.getrandbits(rng.randint(1, 80)))
         a = lo if lo is not None else -10 ** rng.randint(1, 25)
         b = hi if hi is not None else 10 ** rng.randint(1, 25)
         if a <= b:
